@@ -84,6 +84,15 @@ def ctl(a: INT64, n: INT64) -> Tuple[INT64, INT64, INT64, INT64, INT64, INT64]:
         delta = delta + 1
         zeta = zeta + alpha
         cond = alpha < 100
+    # a for variable that is read after its loop is carried too (with five other carried variables)
+    idx = a * 0
+    for idx in range(n):
+        beta = beta + idx
+        gamma = gamma + 1
+        delta = delta + 2
+        eps = eps + 3
+        zeta = zeta + 4
+    alpha = alpha + idx
     return alpha, beta, gamma, delta, eps, zeta
 ''',
     # script-time constants from globals of three kinds (rebindable int, list, numpy array), a
